@@ -205,3 +205,23 @@ func HarnessC03Key(maxLen int, shape int, pair bool) {
 	}
 	verifCheckPlaceholder(errs, s, verifExempt(site.ctx, keyStr))
 }
+
+// HarnessC03Tagged: the malformed placeholder carries an explicit YAML tag
+// (!!bool, !!int, !!float, !!null, !!str) at every scalar position of the full skeleton.
+func HarnessC03Tagged() {
+	doc, sites := verifFullSkeletonSites()
+	site := sites.scalars[verifChoose("scalar", len(sites.scalars))]
+	tag := []string{"!!bool", "!!int", "!!float", "!!str"}[verifChoose("tag", 4)]
+	site.node.Tag, site.node.Style = tag, 0
+	site.node.Value = verifBadExpr
+	verifPlace(doc, 1, 0)
+	errs := verifLintNode(doc, verifRules())
+	verifReach("site")
+	any := 0
+	for _, e := range errs {
+		if e.Line == site.node.Line && e.Column >= site.node.Column {
+			any++
+		}
+	}
+	verifCheckf(any >= 1, "placeholder-silently-skipped", site.path+" "+tag)
+}
